@@ -256,6 +256,16 @@ func runFullRoutes(src string) ([]*fobs, string) {
 		case 3:
 			out = Watch(vm, watchdog, func() (otto.Value, error) { return vm.Eval(src) })
 		case 4:
+			// the Script compiled on another runtime, after it has ALSO been run on a runtime whose globals
+			// differ (names the program leaves unresolved exist there, the with subjects are richer): nothing
+			// learnt during that run may stick to the compiled program
+			if shared != nil {
+				pol := otto.New()
+				pol.SetStackDepthLimit(400)
+				_ = pol.Set("log", func(call otto.FunctionCall) otto.Value { return otto.UndefinedValue() })
+				_, _ = pol.Run(`var nowhere = function () { return 1; }; var ex = 5; Object.prototype.g0 = 77; Object.prototype.g1 = 78;`)
+				Watch(pol, watchdog, func() (otto.Value, error) { return pol.Run(shared) })
+			}
 			out = Watch(vm, watchdog, func() (otto.Value, error) {
 				if shared == nil {
 					return otto.Value{}, fmt.Errorf("no script")
@@ -346,6 +356,13 @@ func main() {
 	pinned := []minijs.Program{
 		{InFunc: false, Body: []minijs.Stmt{minijs.SLabelled{L: 1, S: minijs.SIf{E: minijs.Lit{Kind: 2}, A: minijs.SBreak{L: 1}}}, minijs.SExpr{E: minijs.Log{E: minijs.Lit{Kind: 1, N: 5}}}}},
 		{InFunc: true, Body: []minijs.Stmt{minijs.SLabelled{L: 1, S: minijs.SIf{E: minijs.Lit{Kind: 2}, A: minijs.SBreak{L: 1}}}, minijs.SReturn{E: minijs.Lit{Kind: 1, N: 7}}}},
+	}
+	{
+		// pinned witness of finding class 2 (completion value lost at break)
+		src := "L1: {\n  1;\n  break L1;\n}\n"
+		res, diff := runFullRoutes(src)
+		env.Add(fmt.Sprintf("FCase [JLabelled 1%%nat (JBlock [JExpr (XLit (WNum 1)); JBreak 1%%nat])] %s %s %s %s", Clist(res[0].log), res[0].out, res[0].cv, Cbool(diff == "")),
+			fmt.Sprintf("%s => %s", src, res[0].String()), "miniJS+", true)
 	}
 	for i := 0; env.Count() < env.N; i++ {
 		if i >= len(pinned) && i%2 == 1 {
